@@ -2,6 +2,7 @@ import TabulaModel.Util
 import TabulaModel.Model.Html
 import TabulaModel.Model.HtmlSpec
 import TabulaModel.Model.HtmlApi
+import TabulaModel.Model.HtmlLost
 /-
 Line protocol of C19.
 
@@ -17,6 +18,9 @@ Line protocol of C19.
   c19.want <int> <doctree> → hex of squeeze (wantOf m doc) — the text the property asks for — or "wrapped" when
                              some p with a block-level child has a child with text that is neither block-level nor
                              inline content (noWrapped fails)
+  c19.lost <int> <doctree> → R=<hex squeeze srcOf> L=<hex squeeze lostOf> sub=<squeeze src is a subsequence of
+                             squeeze want> len=<|want| = |src| + |lost|>   (the harness supplies the real returned
+                             text and the lost text it collects itself)
   c19.blk <int> <doctree> →  the specification `blocksOf` (tables whole, item kinds) of the clamped mode
   c19.deeper <limit> <doctree> → 1 | 0    treeDeeperThan(doc, limit), any limit ≥ 0 (hook VerifTreeDeeperThan)
   c19.limit               →  maxTreeDepth (hook VerifMaxTreeDepth)
@@ -271,6 +275,14 @@ def handleApi (op : String) (args : List String) : String :=
   | "c19.want", [m, tree] =>
     match m.toInt?, parseTree tree with
     | some m, some doc => if noWrapped (bodyOf doc) then hexS (squeeze (wantOf m doc)) else "wrapped"
+    | _, _ => "bad-op"
+  | "c19.lost", [m, tree] =>
+    match m.toInt?, parseTree tree with
+    | some m, some doc =>
+      let wn := squeeze (wantOf m doc)
+      let sr := squeeze (srcOf m doc)
+      let ls := squeeze (lostOf m doc)
+      s!"R={hexS sr} L={hexS ls} sub={isSubseq sr wn} len={wn.length == sr.length + ls.length}"
     | _, _ => "bad-op"
   | "c19.src", [m, tree] =>
     match m.toInt?, parseTree tree with
